@@ -72,6 +72,13 @@ func (r *EntityLocal) GetOrAddFeature(featureType model.FeatureTypeType, role mo
 	r.mux.Lock()
 	defer r.mux.Unlock()
 
+	// check again under the lock, a concurrent call may have created the feature in the meantime
+	for _, f := range r.features {
+		if f.Type() == featureType && f.Role() == role {
+			return f
+		}
+	}
+
 	f := NewFeatureLocal(r.NextFeatureId(), r, featureType, role)
 
 	description := string(featureType)
